@@ -485,6 +485,14 @@ func (e *Engine) choose(n int, label string) int {
 	}
 	v := e.freshVar(label, 32)
 	e.assume(e.ts.Cmp(OpUlt, v, e.ts.Const(uint64(n), 32)))
+	// an explicit enumeration requested by the harness: the fork bound does not apply
+	if n > e.cfg.MaxFork && e.pos >= len(e.prefix) {
+		saved := e.cfg
+		cfg := *saved
+		cfg.MaxFork = n + 1
+		e.cfg = &cfg
+		defer func() { e.cfg = saved }()
+	}
 	return int(e.concretize(v))
 }
 
